@@ -13,7 +13,8 @@ EXPLANATION = ('SumGrader.perform_summation runs with both limits as z3 integers
                'reversals and renamings of the summation variable are accepted for every sample, perturbed summands/limits are accepted exactly '
                'when |difference| <= tolerance at every sample, every subset of input_positions is honoured, and non-integer/complex limits, a '
                'summation variable with another meaning, blank fields and instructor-only variables raise student-facing errors while failures '
-               'in the author\'s sum raise ConfigError.')
+               'in the author\'s sum raise ConfigError.'
+               ' All pairings of integer / non-integer / infinite limits typed by the student; summation-variable names that already mean something under every function restriction.')
 ASSUMPTIONS = ['limits integer-valued in the stated range; the summand is an arbitrary function of n (uninterpreted) in perform_summation harnesses',
                'end-to-end harnesses: sampled variables arbitrary reals in their intervals, concrete formulas']
 BOUNDS = {'quick': 'limits in [-12,12] both orders x even_odd 0,1,2; infinite limits with cutoff 3..6; end-to-end with samples 2',
